@@ -1,5 +1,5 @@
 import PGV.Spec.Lang
-import PGV.Props.Facts
+import PGV.Props.Facts.Patterns
 import PGV.Proofs.LangEq
 import PGV.Proofs.Size
 import PGV.Proofs.EmailEq
